@@ -65,7 +65,7 @@ def e1c(ctx: Ctx):
         )
 
 
-@rule("E13", "TEMP-FRESH: a new temporary is numbered from the size of the very set it is registered in", ["C05", "C01", "C04", "C03"], floor=2, soft=True)
+@rule("E13", "TEMP-FRESH: a new temporary is numbered from the size of the very set it is registered in", ["C05", "C01", "C04", "C03", "C02"], floor=2, soft=True)
 def e13(ctx: Ctx):
     py = pyfacts(ctx)
     ci = py.cls("AbstractBasicStatement")
